@@ -49,7 +49,7 @@ def build_opt(cfg, mode="rep", ndev_pjit=1):
 class Runner:
 
   def __init__(self, cfg, shapes, mode="rep", ndev=1, ndev_pjit=None,
-               mesh=1, params=None):
+               mesh=1, params=None, jit=True):
     import jax
     import jax.numpy as jnp
     self.cfg, self.mode, self.ndev = cfg, mode, ndev
@@ -59,7 +59,9 @@ class Runner:
     self.opt = build_opt(cfg, mode, ndev_pjit or 1)
     self.mesh = None
     if mode == "rep":
-      self._upd = jax.jit(self.opt.update)
+      # jit=False: op-by-op execution, the way a debugging or notebook user
+      # steps the transformation (Python code of update runs on every call)
+      self._upd = jax.jit(self.opt.update) if jit else self.opt.update
     elif mode == "pmap":
       self.devices = jax.devices()[:ndev]
       self._upd = jax.pmap(self.opt.update, axis_name="batch",
